@@ -1759,7 +1759,7 @@ expression
           $$.required_strings.count = 0;
         }
 
-        yr_parser_emit_with_arg(yyscanner, OP_OF, OF_STRING_SET, NULL, NULL);
+        fail_if_error(yr_parser_emit_with_arg(yyscanner, OP_OF, OF_STRING_SET, NULL, NULL));
 
         $$.type = EXPRESSION_TYPE_BOOLEAN;
       }
@@ -1770,7 +1770,7 @@ expression
           yywarning(yyscanner,
             "expression always false - requesting %" PRId64 " of %" PRId64 ".", $1.value.integer, $3);
         }
-        yr_parser_emit_with_arg(yyscanner, OP_OF, OF_RULE_SET, NULL, NULL);
+        fail_if_error(yr_parser_emit_with_arg(yyscanner, OP_OF, OF_RULE_SET, NULL, NULL));
 
         $$.type = EXPRESSION_TYPE_BOOLEAN;
         $$.required_strings.count = 0;
@@ -1801,7 +1801,7 @@ expression
           $$.required_strings.count = 0;
         }
 
-        yr_parser_emit_with_arg(yyscanner, OP_OF_PERCENT, OF_STRING_SET, NULL, NULL);
+        fail_if_error(yr_parser_emit_with_arg(yyscanner, OP_OF_PERCENT, OF_STRING_SET, NULL, NULL));
       }
     | primary_expression '%' _OF_ rule_set
       {
@@ -1820,7 +1820,7 @@ expression
           fail_with_error(ERROR_INVALID_PERCENTAGE);
         }
 
-        yr_parser_emit_with_arg(yyscanner, OP_OF_PERCENT, OF_RULE_SET, NULL, NULL);
+        fail_if_error(yr_parser_emit_with_arg(yyscanner, OP_OF_PERCENT, OF_RULE_SET, NULL, NULL));
       }
     | for_expression _OF_ string_set _IN_ range
       {
@@ -1841,7 +1841,7 @@ expression
           $$.required_strings.count = 0;
         }
 
-        yr_parser_emit(yyscanner, OP_OF_FOUND_IN, NULL);
+        fail_if_error(yr_parser_emit(yyscanner, OP_OF_FOUND_IN, NULL));
 
         $$.type = EXPRESSION_TYPE_BOOLEAN;
       }
@@ -1889,20 +1889,20 @@ expression
           $$.required_strings.count = 0;
         }
 
-        yr_parser_emit(yyscanner, OP_OF_FOUND_AT, NULL);
+        fail_if_error(yr_parser_emit(yyscanner, OP_OF_FOUND_AT, NULL));
 
         $$.type = EXPRESSION_TYPE_BOOLEAN;
       }
     | _NOT_ boolean_expression
       {
-        yr_parser_emit(yyscanner, OP_NOT, NULL);
+        fail_if_error(yr_parser_emit(yyscanner, OP_NOT, NULL));
 
         $$.type = EXPRESSION_TYPE_BOOLEAN;
         $$.required_strings.count = 0;
       }
     | _DEFINED_ boolean_expression
       {
-        yr_parser_emit(yyscanner, OP_DEFINED, NULL);
+        fail_if_error(yr_parser_emit(yyscanner, OP_DEFINED, NULL));
         $$.type = EXPRESSION_TYPE_BOOLEAN;
         $$.required_strings.count = 0;
       }
@@ -2363,7 +2363,7 @@ string_set
     : '('
       {
         // Push end-of-list marker
-        yr_parser_emit_push_const(yyscanner, YR_UNDEFINED);
+        fail_if_error(yr_parser_emit_push_const(yyscanner, YR_UNDEFINED));
       }
       string_enumeration ')'
       {
@@ -2416,7 +2416,7 @@ rule_set
     : '('
       {
         // Push end-of-list marker
-        yr_parser_emit_push_const(yyscanner, YR_UNDEFINED);
+        fail_if_error(yr_parser_emit_push_const(yyscanner, YR_UNDEFINED));
       }
       rule_enumeration ')'
       {
@@ -2555,19 +2555,19 @@ for_expression
 for_quantifier
     : _ALL_
       {
-        yr_parser_emit_push_const(yyscanner, YR_UNDEFINED);
+        fail_if_error(yr_parser_emit_push_const(yyscanner, YR_UNDEFINED));
         $$.type = EXPRESSION_TYPE_QUANTIFIER;
         $$.value.integer = FOR_EXPRESSION_ALL;
      }
     | _ANY_
       {
-        yr_parser_emit_push_const(yyscanner, 1);
+        fail_if_error(yr_parser_emit_push_const(yyscanner, 1));
         $$.type = EXPRESSION_TYPE_QUANTIFIER;
         $$.value.integer = FOR_EXPRESSION_ANY;
       }
     | _NONE_
       {
-        yr_parser_emit_push_const(yyscanner, 0);
+        fail_if_error(yr_parser_emit_push_const(yyscanner, 0));
         $$.type = EXPRESSION_TYPE_QUANTIFIER;
         $$.value.integer = FOR_EXPRESSION_NONE;
       }
